@@ -402,9 +402,11 @@ def g6(ctx):
                 a = c.call_args()
                 ok = len(a) == 2 and a[0] is not None and a[0].kind == 'DeclRefExpr' and \
                     (a[0].ref or {}).get('kind') == 'ParmVarDecl' and 'string' in (a[0].type or '') and \
-                    member_path(a[1]) == 'cls'
+                    a[1] is not None and a[1].kind == 'DeclRefExpr' and \
+                    (a[1].ref or {}).get('kind') == 'ParmVarDecl' and \
+                    f.params and member_path(a[1]) == f.params[0][0]
                 n += 1
                 ctx.check('%s/named-key' % short(f), ok,
-                          '%s: the named map is keyed by (namespace argument, cls)' % inst(f),
+                          '%s: the named map is keyed by (namespace argument, class argument)' % inst(f),
                           '%s: named-map key is %s' % (inst(f), c.text(4)), c.loc)
     ctx.require(n >= 6, 'only %d registry mutation sites' % n)
